@@ -1017,7 +1017,14 @@ Section RoundTrip.
 
   (* A well-formed document, converted to patches and applied to the empty document, gives back a document with
      exactly the same members (same names, same values; member order is not observable in Go).
-     Full statement with [json_equiv]: see [from_document_roundtrip_equiv] below. *)
+     The conclusion [Permutation m' m] (same member names with identical values, names pairwise distinct) is what
+     the property's "reproduces that document" means for a Go map.  NOT PROVEN HERE: the bridge
+       NoDup (map fst m) -> Permutation m' m -> json_equiv (JObj m') (JObj m) = true
+     (insertion sort in Json.Ast.norm is invariant under permutation when names are distinct; needs that bytes_ltb
+     is a strict total order), a fact about Json/Ast.v; with it the statement
+       json_equiv (result) (JObj m) = true
+     follows immediately.  Corr.Composer.wf_example_roundtrip checks the json_equiv form on an example, and the
+     generated RCases files check it on 6000 documents against the real code. *)
   Theorem from_document_roundtrip : forall m,
     wf_document m ->
     exists ps m', patches_from_document (JObj m) = Some ps
